@@ -168,8 +168,12 @@ var c08History = probe.Define("C08", "history", func(t *rapid.T) c08In {
 					}
 				}
 				cc := *templates[k]
-				cc.InitiatorToResponderEncryptionKey, cc.InitiatorToResponderIntegrityKey = nil, nil
-				cc.ResponderToInitiatorEncryptionKey, cc.ResponderToInitiatorIntegrityKey = nil, nil
+				if in.PreKeyed {
+					// the template holds the keys of the earlier derivation: the copy starts without them (a copy of a template
+					// that was never keyed is taken as it is - whatever its key fields are, they are the negotiated object's)
+					cc.InitiatorToResponderEncryptionKey, cc.InitiatorToResponderIntegrityKey = nil, nil
+					cc.ResponderToInitiatorEncryptionKey, cc.ResponderToInitiatorIntegrityKey = nil, nil
+				}
 				c = &cc
 			}
 			negotiated = append(negotiated, c)
